@@ -32,6 +32,7 @@ def run_property(prop_id: str, tier: str, root: str, seed: int, replay: str | No
     try:
         A = Analysis(root)
         spec.fn(A, col)
+        col.scope(*A.touched)
         if not col.obligations:
             raise AnalysisError(f"{prop_id}: no rule instance was evaluated (vacuous run)")
     except AnalysisError as e:
